@@ -257,6 +257,12 @@ func c18Run(c *core.Ctx, idx int) {
 			listed[n] = append(listed[n], l)
 		}
 	}
+	if c.Rng.Intn(8) == 0 {
+		// A list saved by an editor that writes a byte order mark: it belongs to
+		// the first line (here a comment), everything else is where it is.
+		texts = append([]string{"\ufeff! saved with a byte order mark"}, texts...)
+		c.Event("lists_starting_with_a_byte_order_mark", 1)
+	}
 	eng := urlfilter.NewDNSEngine(util.StorageSplit(c.Rng, texts))
 	for _, l := range lines {
 		if len(c18KnownTag(strings.TrimSpace(l.Text))) > 0 {
